@@ -32,6 +32,6 @@ For each mutation i = 1..{n} write, into the directory {wt}/_out/ (create it):
   mut<i>.diff   - the change as a unified diff produced by `git diff` in the worktree (relative to the worktree's HEAD; it must apply with `git apply` to a clean checkout of HEAD);
   demo<i>.py    - a small stand-alone program (run as `PYTHONPATH=<src> /venv/bin/python demo<i>.py`) that exits 0 and prints PASS when the property holds in the scenario and exits 1 and prints FAIL (with a short explanation) when it is violated; it must FAIL with the mutation applied and PASS on the unmodified HEAD. It must be deterministic (fixed seeds) and run in under a minute;
   meta<i>.json  - {{"property": "{pid}", "summary": "...what the change is...", "needs": "...what is needed for it to manifest...", "tests_run": "...the command you ran and its result..."}}
-Work on one mutation at a time: apply it, run the demo (must FAIL), run the whole test suite (must pass), save the diff, then `git checkout -- src` to return to a clean tree, verify the demo PASSES on the clean tree, and go on. Leave the worktree clean (only _out/ untracked) when done. Do not commit anything.
+Work on one mutation at a time: apply it, run the demo (must FAIL), run the whole test suite (must pass), save the diff, then `git checkout -- src` to return to a clean tree, verify the demo PASSES on the clean tree, and go on. Leave the worktree clean (only _out/ untracked) when done. Do not commit anything. Never use `git stash` (the stash is shared between all worktrees of the repository and other agents are working in theirs: use `git diff > file; git checkout -- src; git apply file`), and never use pkill/killall.
 
 Important: the unmodified tree already has some known weaknesses; your demo must PASS on the unmodified tree, so choose scenarios where the unmodified code behaves correctly. Report at the end, for each mutation, a two-line summary and the path of its files.""")
